@@ -88,8 +88,18 @@ class Run:
         return path
 
     def run_check(self, job):
+        r = self._run_check(job)
+        if r[3] and os.environ.get('VERIF_FAIL_FAST') and r[2].engine != 'N' and any(
+                o.status != 'SUCCESS' and not any(fnmatch.fnmatch(o.name, pat) for pat in r[2].expect_fail) for o in r[3]['obligations']):
+            self._fail_fast = True
+        return r
+
+    def _run_check(self, job):
         unit, inst, check, unit_c, extra = job
         d = os.path.dirname(unit_c)
+        if getattr(self, '_fail_fast', False) and not extra:
+            # VERIF_FAIL_FAST=1 (used when a seeded change is tried): an obligation has failed already, the remaining checks are not needed
+            return (unit, inst, check, None, 'skipped: VERIF_FAIL_FAST and another check has failed already')
         try:
             if check.engine == 'N':
                 return (unit, inst, check, self.run_native(unit, inst, check), None)
